@@ -193,6 +193,7 @@ class CkInterp(Interp):
         s.world = self.world
         s.shared = self.shared
         s.caller = fr
+        s.up_chain = self.up_frames()
         s.merge_diamonds = getattr(self, 'merge_diamonds', False)
         return s
 
@@ -223,8 +224,11 @@ class CkInterp(Interp):
         val = rets[-1][1]
         world = dict(rets[-1][2])
         cal = world.pop('__caller__')
+        self.merge_chain([(pc, snap.get('__chain__', [])) for pc, v, snap in rets])
+        world.pop('__chain__', None)
         for pc, v, snap in reversed(rets[:-1]):
             snap = dict(snap)
+            snap.pop('__chain__', None)
             c2 = snap.pop('__caller__')
             val = core.ite(pc, v, val) if val is not None else None
             world = {k: core.ite(pc, snap[k], world[k]) for k in world}
